@@ -25,7 +25,7 @@ EXPLANATION = ('theorems C18_* (coq/props/C18.v) hold for every signature, every
                'bound); the correspondence ties the models of M_deco.v to _inspect.py / _decorators.py / _cache.py on the exhaustive scopes above')
 TRUSTED = ['modelled, not verified: CPython argument binding (inspect.getcallargs is the reference, itself compared on every generated call), dict key equality / '
            'hashing of tuples, copy.copy of a wrapper']
-ASSUMPTIONS = ['no keyword-only parameters; parameter names distinct from the *args / **kw names', 'the wrapped function is deterministic given its evaluation count and does not raise (cache claims)',
+ASSUMPTIONS = ['keyword-only parameters: generated for every wrapper, for getcallargs / call_with_callargs only where no keyword-only parameter is passed by keyword or required (there unchanged /repo deviates from inspect: candidate findings, switch INCLUDE_KWONLY_DEVIATIONS); parameter names distinct from the *args / **kw names', 'the wrapped function is deterministic given its evaluation count and does not raise (cache claims)',
                'arguments are ints, floats, bools, None, str, and tuples / lists / str-keyed dicts of these (no NaN)',
                'cache: arguments that stay unhashable after normalisation (sets, pandas objects) are deliberately not cached - f runs on every call (tests/test_cache.py::test_cache_revert_to_no_cache expects it)']
 EXHAUSTIVE = {'quick': False, 'thorough': False}
@@ -99,19 +99,25 @@ def coq_av(e):
     if 'b' in e: return '(ABool %s)' % ('true' if e['b'] else 'false')
     if 'nan' in e: return '(AStr "NaN")'
     if 't' in e: return '(ATup [%s])' % '; '.join(coq_av(x) for x in e['t'])
+    if 'u' in e: return '(AUnh (%d))' % e['u']
     if 'l' in e: return '(AList [%s])' % '; '.join(coq_av(x) for x in e['l'])
     return '(ADict [%s])' % '; '.join('(%s, %s)' % (coq_str(k), coq_av(v)) for k, v in e['d'])
 
 def coq_runner(case):
-    return {'bind': 'run_bind', 'stack': 'run_stack', 'cache': 'run_cache', 'tryhist': 'run_tryhist'}[case['kind']]
+    return {'bind': 'run_bind', 'stack': 'run_stack', 'cache': 'run_cache', 'tryhist': 'run_tryhist', 'seq': 'run_seq'}[case['kind']]
+def coq_ko(case):
+    return '[%s]' % '; '.join('(%s, %s)' % (coq_str(x), 'Some (%d)' % dv if dv is not None else 'None') for x, dv in case.get('ko', []))
 def coq_case(case):
     k = case['kind']
     if k == 'bind':
-        return '(%s, %s)' % (coq_sig(case), coq_call(case))
+        return '(%s, %s, %s)' % (coq_sig(case), coq_ko(case), coq_call(case))
+    if k == 'seq':
+        return '([%s], %s, %s, [%s])' % ('; '.join(TAG[d] for d in case['decos']), coq_sig(case), coq_ko(case),
+                                         '; '.join('(%s, %s)' % ('true' if st['via'] == 'call' else 'false', coq_call(st)) for st in case['steps']))
     if k == 'tryhist':
         return '(%s, [%s])' % (coq_av(case['value']), '; '.join('true' if b else 'false' for b in case['steps']))
     if k == 'stack':
-        return '([%s], %s, %s, %s, %s, [%s])' % ('; '.join(TAG[d] for d in case['decos']), coq_sig(case), 'true' if case['raises'] else 'false', coq_call(case),
+        return '([%s], %s, %s, %s, %s, %s, [%s])' % ('; '.join(TAG[d] for d in case['decos']), coq_sig(case), coq_ko(case), 'true' if case['raises'] else 'false', coq_call(case),
                                                FALLBACK_J[case.get('tryv', 'try_none')], '; '.join(coq_str(x) for x in case.get('exc', [])))
     return '([%s], [%s])' % ('; '.join(coq_av(r) for r in ret_pool(case)),
                              '; '.join('([%s], [%s])' % ('; '.join(coq_av(a) for a in c['args']), '; '.join('(%s, %s)' % (coq_str(k), coq_av(v)) for k, v in c['kw'])) for c in case['calls']))
@@ -150,9 +156,12 @@ def make_f(case, raises=False):
     n, nd = case['npos'], case['ndef']
     NM = pnames(case)
     params = [NM[i] + ('=%d' % (100 + i) if i >= n - nd else '') for i in range(n)]
+    ko = case.get('ko', [])
     if case['va']: params.append('*args')
+    elif ko: params.append('*')
+    params += [x + ('=%d' % dv if dv is not None else '') for x, dv in ko]        # keyword-only parameters
     if case['vk']: params.append('**kw')
-    body = 'RAISE()' if raises else 'BIND(dict(%s), %s, %s)' % (', '.join('%s=%s' % (x, x) for x in NM), 'args' if case['va'] else 'None', 'kw' if case['vk'] else 'None')
+    body = 'RAISE()' if raises else 'BIND(dict(%s), %s, %s)' % (', '.join('%s=%s' % (x, x) for x in NM + [x for x, _ in ko]), 'args' if case['va'] else 'None', 'kw' if case['vk'] else 'None')
     return eval('lambda %s: %s' % (', '.join(params), body), {'BIND': BIND, 'RAISE': RAISE})
 
 def outcome(f, *a, **k):
@@ -192,7 +201,9 @@ def impl_bind(case):
 
 def sig_text(case):
     n, nd = case['npos'], case['ndef']
-    params = [pnames(case)[i] + ('=%d' % (100 + i) if i >= n - nd else '') for i in range(n)] + (['*args'] if case['va'] else []) + (['**kw'] if case['vk'] else [])
+    ko = case.get('ko', [])
+    params = [pnames(case)[i] + ('=%d' % (100 + i) if i >= n - nd else '') for i in range(n)] + (['*args'] if case['va'] else ['*'] if ko else []) + \
+             [x + ('=%d' % dv if dv is not None else '') for x, dv in ko] + (['**kw'] if case['vk'] else [])
     return 'f(%s)' % ', '.join(params)
 
 def chain_of(w):
@@ -248,7 +259,7 @@ def impl_stack(case):
         inspect.getcallargs(f, *a, **k); valid = True
     except TypeError:
         valid = False
-    declared = pnames(case)
+    declared = pnames(case) + [x for x, _ in case.get('ko', [])]          # getargs: positional names, then keyword-only names
     undeclared = [x for x in k if x not in declared]
     kws_finding = False
     if viol is None:
@@ -288,8 +299,34 @@ def impl_stack(case):
                     viol = 'stack %r on %s called with *%r **%r%s gave %r, expected %r' % (decos, sig_text(case), a, k, ' (f raises)' if case['raises'] else '', obs_of(st, r), obs_of(*want))
     return {'status': st, 'obs': obs, 'viol': viol, 'valid': valid, 'kws_finding': kws_finding}
 
+# arguments that stay unhashable after _prehash: numpy arrays (same bytes, different shapes / dtypes), a Series, a set
+def unh(i):
+    import numpy as np, pandas as pd
+    return [lambda: np.zeros(4), lambda: np.zeros((2, 2)), lambda: np.arange(6.).reshape(2, 3), lambda: np.arange(6.).reshape(3, 2), lambda: np.arange(6.),
+            lambda: pd.Series([0., 0., 0., 0.]), lambda: {1, 2}, lambda: np.zeros(4, dtype = 'int32'), lambda: np.zeros(2), lambda: np.zeros((4, 1)),
+            lambda: np.arange(6.).reshape(1, 6), lambda: {2, 3}][i]()
+N_UNH = 12
+def same_arg(x, y):
+    """equality of two arguments as passed, also for arrays / Series / sets"""
+    import numpy as np, pandas as pd
+    if isinstance(x, np.ndarray) or isinstance(y, np.ndarray):
+        return isinstance(x, np.ndarray) and isinstance(y, np.ndarray) and x.dtype == y.dtype and x.shape == y.shape and bool(np.array_equal(x, y))
+    if isinstance(x, pd.Series) or isinstance(y, pd.Series):
+        return isinstance(x, pd.Series) and isinstance(y, pd.Series) and x.equals(y)
+    if isinstance(x, (list, tuple)) and type(x) is type(y): return len(x) == len(y) and all(same_arg(a, b) for a, b in zip(x, y))
+    if isinstance(x, dict) and isinstance(y, dict): return set(x) == set(y) and all(same_arg(x[k], y[k]) for k in x)
+    return x == y
+def has_unh(e):
+    if isinstance(e, dict):
+        if 'u' in e: return True
+        for key in ('t', 'l'):
+            if key in e: return any(has_unh(x) for x in e[key])
+        if 'd' in e: return any(has_unh(v) for _, v in e['d'])
+    return False
+
 def dec(e):
     if isinstance(e, dict):
+        if 'u' in e: return unh(e['u'])
         if 'f' in e: return float(e['f'])
         if 'b' in e: return bool(e['b'])
         if 'nan' in e: return float('nan')
@@ -305,6 +342,8 @@ def canon_av(x):
     if isinstance(x, tuple): return ['t'] + [canon_av(y) for y in x]
     if isinstance(x, list): return ['l'] + [canon_av(y) for y in x]
     if isinstance(x, dict): return ['d'] + [[k, canon_av(v)] for k, v in x.items()]
+    for i in range(N_UNH):
+        if type(unh(i)) is type(x) and same_arg(unh(i), x): return ['u', i]
     raise TypeError(x)
 
 def impl_cache(case):
@@ -317,6 +356,7 @@ def impl_cache(case):
     w = D['cache'](g)
     rets = []; viol = None; status = 'ok'
     seen = []            # (args, kw, first return, index, evaluations) per distinct combination as passed
+    any_uh = False
     for i, c in enumerate(case['calls']):
         a = tuple(dec(x) for x in c['args']); k = {x: dec(y) for x, y in c['kw']}
         before = len(evaluated)
@@ -326,10 +366,14 @@ def impl_cache(case):
             status = err_name(e); rets.append(None); viol = viol or 'cached call %d raised %s' % (i, status); continue
         rets.append(canon_av(r))
         a0 = tuple(dec(x) for x in c['args']); k0 = {x: dec(y) for x, y in c['kw']}
-        hit = [s for s in seen if s[0] == a0 and s[1] == k0]
+        hit = [s for s in seen if same_arg(s[0], a0) and same_arg(s[1], k0)]
         if hit: hit[0][4] += len(evaluated) - before
+        uh = any(has_unh(x) for x in c['args']) or any(has_unh(v) for _, v in c['kw'])
+        any_uh = any_uh or uh
         if viol is None:
-            if hit:
+            if hit and uh:
+                pass          # arguments that cannot be hashed are deliberately not cached (ASSUMPTIONS): a repeat may be evaluated again
+            elif hit:
                 if len(evaluated) != before:
                     viol = 'call %d repeats the combination of call %d (which returned %r) but the function was evaluated again: %d evaluations for one combination' % (i, hit[0][3], hit[0][2], hit[0][4])
                 elif not (r is hit[0][2] or canon_av(r) == canon_av(hit[0][2])):
@@ -338,9 +382,49 @@ def impl_cache(case):
                 j = [s for s in seen if canon_av(s[2]) == canon_av(r)]
                 viol = 'call %d %r %r is a new combination of arguments but the function was evaluated %d times: the result %r of call %s was returned' % (i, a0, k0, len(evaluated) - before, r, j[0][3] if j else '?')
         if not hit: seen.append([a0, k0, r, i, len(evaluated) - before])
-    if viol is None and len(evaluated) != len(seen):
+    if viol is None and not any_uh and len(evaluated) != len(seen):
         viol = '%d evaluations for %d distinct combinations of arguments' % (len(evaluated), len(seen))
     return {'status': status, 'obs': [rets, evaluated], 'viol': viol}
+
+def impl_seq(case):
+    """getcallargs / calls repeated on ONE wrapper object: every step must agree with inspect.getcallargs / f, whatever came before;
+    the wrapper's reported specification is checked again afterwards"""
+    _KINDS[0] = False
+    f = make_f(case)
+    w = f
+    for d in case['decos']: w = D[d](w)
+    obs = []; viol = None; status = 'ok'
+    for i, stp in enumerate(case['steps']):
+        a = tuple(stp['args']); k = dict((x, y) for x, y in stp['kw'])
+        try:
+            exp = inspect.getcallargs(f, *a, **k); valid = True
+        except TypeError:
+            exp = None; valid = False
+        if stp['via'] == 'call':
+            st, r = outcome(w, *a, **k); obs.append(obs_of(st, r))
+            if viol is None and valid and (st != 'ok' or r != f(*a, **k)):
+                viol = 'step %d: the wrapper called with *%r **%r gave %r, f gives %r (%s, after %d earlier steps on the same wrapper)' % (i, a, k, obs_of(st, r), f(*a, **k), sig_text(case), i)
+        else:
+            st, got = outcome(getcallargs, w, *a, **k)
+            lib = canon_binding(got) if st == 'ok' else ['ERR', st]
+            if st == 'ok':
+                st2, rt = outcome(call_with_callargs, w, got); rto = obs_of(st2, rt)
+            else:
+                st2, rt, rto = st, None, ['ERR', st]
+            obs.append([canon_binding(exp) if valid else ['ERR', 'TypeError'], lib, rto])
+            if viol is None and valid:
+                if st != 'ok' or got != exp:
+                    viol = 'step %d: getcallargs(wrapper of %s, *%r, **%r) = %r, inspect.getcallargs(f, ...) gives %r (after %d earlier steps on the same wrapper)' % (i, sig_text(case), a, k, got if st == 'ok' else st, exp, i)
+                elif st2 != 'ok' or rt != f(*a, **k):
+                    viol = 'step %d: call_with_callargs(wrapper, getcallargs(...)) gave %r, f gives %r' % (i, rto, f(*a, **k))
+        if st != 'ok': status = st
+    try:
+        spec_ok = not (getargspec(w) != inspect.getfullargspec(f) and dict(getargspec(w)) != inspect.getfullargspec(f)._asdict())
+    except Exception:
+        spec_ok = False
+    obs.append(spec_ok)
+    if viol is None and not spec_ok: viol = 'after the calls the wrapper reports %r, f has %r' % (dict(getargspec(w)), inspect.getfullargspec(f)._asdict())
+    return {'status': status, 'obs': obs, 'viol': viol}
 
 class CustomList(list):
     pass
@@ -378,7 +462,7 @@ def impl_tryhist(case):
     return {'status': status, 'obs': obs, 'viol': viol}
 
 def impl(case):
-    return {'bind': impl_bind, 'stack': impl_stack, 'cache': impl_cache, 'tryhist': impl_tryhist}[case['kind']](case)
+    return {'bind': impl_bind, 'stack': impl_stack, 'cache': impl_cache, 'tryhist': impl_tryhist, 'seq': impl_seq}[case['kind']](case)
 
 # ------------------------------------------------------------------ classification
 def nontrivial(case, result):
@@ -386,6 +470,7 @@ def nontrivial(case, result):
     if k == 'bind': return bool(result.get('valid')) and (len(case['kw']) > 0 or len(case['args']) < case['npos'])
     if k == 'stack': return len(case['decos']) > 1 or case['raises']
     if k == 'tryhist': return sum(case['steps']) >= 2
+    if k == 'seq': return len(case['steps']) >= 2
     keys = [json.dumps(c, sort_keys=True) for c in case['calls']]
     return len(set(keys)) < len(keys)
 def shape(case):
@@ -393,6 +478,8 @@ def shape(case):
     if k == 'bind': return 'bind:n%d:d%d:%s%s' % (case['npos'], case['ndef'], 'v' if case['va'] else '', 'k' if case['vk'] else '')
     if k == 'stack': return 'stack:%d%s' % (len(case['decos']), ':raises' if case['raises'] else '')
     if k == 'tryhist': return 'tryhist:%d' % sum(case['steps'])
+    if k == 'seq': return 'seq:%d' % len(case['steps'])
+    if k == 'bind' and case.get('ko'): return 'bind:kwonly'
     return 'cache:%d' % len(case['calls'])
 
 # ------------------------------------------------------------------ generation
@@ -424,6 +511,40 @@ def is_valid(sig, call):
     if any(x in NAMES[:min(len(a), n)] for x in k): return False
     if not sig['vk'] and any(x not in NAMES[:n] for x in k): return False
     return all(i < len(a) or NAMES[i] in k or i >= n - nd for i in range(n))
+
+# ---- keyword-only parameters (after *args or a bare star), with and without defaults
+KO_VARIANTS = [[['k', 7]], [['k', None]], [['k', 7], ['m', None]], [['m', None], ['k', 8]], [['k', 7], ['m', 9]]]
+INCLUDE_KWONLY_DEVIATIONS = False      # classes on which unchanged /repo already deviates from inspect (reported as candidate findings)
+def ko_sigs():
+    for n in (0, 1, 2):
+        for nd in range(0, n + 1):
+            for va in (False, True):
+                for vk in (False, True):
+                    for ko in KO_VARIANTS:
+                        yield {'npos': n, 'ndef': nd, 'va': va, 'vk': vk, 'ko': ko}
+def ko_calls(sig):
+    n = sig['npos']; kn = [x for x, _ in sig['ko']]
+    for kpos in range(0, n + (3 if sig['va'] else 2)):
+        for r in range(0, n + 1):
+            for kwn in itertools.combinations(NAMES[:n], r):
+                for m in range(0, 1 << len(kn)):
+                    passed = [kn[i] for i in range(len(kn)) if m >> i & 1]
+                    for extra in ([], [UNDECL]):
+                        names = list(kwn) + passed + extra
+                        yield {'args': list(range(1, kpos + 1)), 'kw': [[x, 10 + i if x in NAMES else 30 + i] for i, x in enumerate(names)]}
+def is_valid_k(sig, call):
+    kn = [x for x, _ in sig['ko']]
+    rest = dict(call, kw=[kv for kv in call['kw'] if kv[0] not in kn])
+    passed = [x for x, _ in call['kw']]
+    return is_valid(sig, rest) and all(dv is not None or x in passed for x, dv in sig['ko'])
+def ko_deviates(sig, call, what):
+    """classes where unchanged /repo deviates from inspect on keyword-only parameters (candidate findings, not generated by default)"""
+    kn = [x for x, _ in sig['ko']]; passed = [x for x, _ in call['kw'] if x in kn]
+    if what == 'bind':      # getcallargs puts a keyword-only keyword into the **kw dict; call_with_callargs never passes keyword-only values on
+        return bool(passed) or any(dv is None for _, dv in sig['ko'])
+    if what == 'loop':      # loops re-passes its first getargs name positionally: with no positional parameter that is a keyword-only one
+        return sig['npos'] == 0 and kn[0] in passed and not call['args']
+    return False
 
 AV_POOL = [1, {'f': 1}, {'b': 1}, 2, None, 'a', {'t': [1]}, {'l': [1]}, {'t': []}, {'l': []}, {'d': []}, {'d': [['x', 1]]}, {'t': [{'t': ['x', 1]}]},
            {'l': [{'t': ['x', 1]}]}, {'d': [['x', {'l': [1]}]]}, {'d': [['x', {'t': [1]}]]}, {'l': [{'l': [1]}]}, {'t': [{'l': [1]}]}, {'l': [{'t': [1]}]},
@@ -484,6 +605,36 @@ def gen_cases(rng, tier):
                         call = {'args': list(range(1, kpos + 1)), 'kw': [[x, 20 + NAMES.index(x) if x in NAMES else 29] for x in order]}
                         decos = rng.choice((['try_back'], ['try_back'], ['try_back', 'try_none'], ['kwargs_support', 'try_back'], ['try_back', 'cache'], ['try_back', 'loop']))
                         cases.append(dict(kind='stack', decos=decos, raises=True, **sig, **call))
+    # keyword-only parameters: getcallargs vs inspect, every wrapper, and sequences on one wrapper object
+    ko_valid = []
+    for sig in ko_sigs():
+        for call in ko_calls(sig):
+            v = is_valid_k(sig, call)
+            if v: ko_valid.append((sig, call))
+            if (v or rng.random() < 0.05) and (INCLUDE_KWONLY_DEVIATIONS or not ko_deviates(sig, call, 'bind')) and rng.random() < (0.5 if quick else 1.0):
+                cases.append(dict(kind='bind', **sig, **call))
+    for sig, call in (rng.sample(ko_valid, 900) if quick else ko_valid):
+        d = rng.choice(DECOS)
+        if d == 'loop' and ko_deviates(sig, call, 'loop') and not INCLUDE_KWONLY_DEVIATIONS: d = 'cache'
+        decos = [d] if rng.random() < 0.8 else [d, rng.choice(['try_none', 'kwargs_support', 'cache'])]
+        cases.append(dict(kind='stack', decos=decos, raises=rng.random() < 0.1, **sig, **call))
+    by_sig = {}
+    for sig, call in ko_valid:
+        if not ko_deviates(sig, call, 'bind') or INCLUDE_KWONLY_DEVIATIONS: by_sig.setdefault(json.dumps(sig, sort_keys=True), (sig, []))[1].append(call)
+    for key in sorted(by_sig):
+        sig, calls = by_sig[key]
+        for _ in range(2 if quick else 10):
+            decos = rng.choice((['try_none'], ['kwargs_support'], ['cache'], ['try_back'], ['kwargs_support', 'try_none'], ['pd2np'], []))
+            if 'kwargs_support' in decos and sig['vk']: calls = [c for c in calls if not any(x == UNDECL for x, _ in c['kw'])] or calls[:1]     # (known finding class)
+            steps = [dict(rng.choice(calls), via=rng.choice(['getcallargs', 'getcallargs', 'call'])) for _ in range(rng.choice([2, 3, 5]))]
+            cases.append(dict(kind='seq', decos=decos, steps=steps, **sig))
+    # the plain signatures too: sequences on one wrapper
+    for _ in range(60 if quick else 1000):
+        sig, _c = rng.choice(valid)
+        calls = [c for s2, c in valid if s2 == sig]
+        decos = rng.choice((['try_none'], ['kwargs_support'], ['cache'], ['loop'], ['kwargs_support', 'cache']))
+        if 'kwargs_support' in decos and sig['vk']: calls = [c for c in calls if not any(x == UNDECL for x, _ in c['kw'])] or calls[:1]
+        cases.append(dict(kind='seq', decos=decos, steps=[dict(rng.choice(calls), via=rng.choice(['getcallargs', 'call'])) for _ in range(rng.choice([2, 4]))], **sig))
     special_valid = []
     for sig in all_sigs():
         for call in special_calls(sig):
@@ -550,6 +701,15 @@ def gen_cases(rng, tier):
                      lambda v: {'args': [1], 'kw': [['k', {'t': [v]}]]}, lambda v: {'args': [{'d': [['x', v]]}], 'kw': []}):
             cases.append({'kind': 'cache', 'calls': [wrap(x), wrap(y), wrap(x), wrap(y)]})
             cases.append({'kind': 'cache', 'calls': [wrap(y), wrap(x)]})
+    # arguments that cannot be hashed: same bytes, different shape / dtype / kind; they must never be served a stale result
+    U = lambda i: {'u': i}
+    for x, y in ((0, 1), (1, 0), (2, 3), (2, 4), (4, 10), (3, 2), (0, 9), (0, 5), (6, 11), (7, 8), (0, 7), (0, 0), (2, 2)):
+        for wrap in (lambda v: {'args': [v], 'kw': []}, lambda v: {'args': [1, v], 'kw': []}, lambda v: {'args': [], 'kw': [['k', v]]},
+                     lambda v: {'args': [{'l': [v]}], 'kw': []}, lambda v: {'args': [{'d': [['x', v]]}], 'kw': []}):
+            cases.append({'kind': 'cache', 'calls': [wrap(U(x)), wrap(U(y)), wrap(U(x))]})
+    for _ in range(40 if quick else 600):
+        pool = [U(rng.randrange(N_UNH)) for _ in range(2)] + rng.sample(AV_POOL, 2)
+        cases.append({'kind': 'cache', 'calls': [{'args': [rng.choice(pool) for _ in range(rng.choice([1, 1, 2]))], 'kw': ([['k', rng.choice(pool)]] if rng.random() < 0.3 else [])} for _ in range(rng.choice([3, 5]))]})
     for r0 in RET_POOL:                 # f returns r0 once, the same call repeated three times
         for c0 in ({'args': [], 'kw': []}, {'args': [1], 'kw': []}, {'args': [{'l': [1]}], 'kw': [['k', None]]}):
             cases.append({'kind': 'cache', 'calls': [c0, c0, c0], 'rets': [r0, 5, 6]})
@@ -566,6 +726,11 @@ def gen_cases(rng, tier):
 
 def shrink(case):
     k = case['kind']
+    if k == 'seq':
+        st = case['steps']
+        for i in range(len(st)):
+            if len(st) > 1: yield dict(case, steps=st[:i] + st[i + 1:])
+        return
     if k == 'cache':
         cs = case['calls']
         for i in range(len(cs)):
